@@ -865,7 +865,7 @@ func (st *state) execStream(f []string) string {
 }
 
 // execProbe (`xrstr`, `xrlstr <limit>`): the string read is executed by the real ReaderX in a CHILD process whose
-// address space is capped at 1 GiB, because a pending length field up to 2^32-1 makes ReadN allocate that much
+// address space is capped at 4 GiB, because a pending length field up to 2^32-1 makes ReadN allocate that much
 // before a single body byte is read. T-observable: the child either answers like the model or dies with the Go
 // runtime's fatal "out of memory" (not an error value, not a recoverable panic). Terminal: the state is dropped.
 func (st *state) execProbe(f []string) string {
@@ -927,7 +927,7 @@ func child(args []string) {
 	if len(args) < 3 {
 		os.Exit(3)
 	}
-	lim := syscall.Rlimit{Cur: 1 << 30, Max: 1 << 30}
+	lim := syscall.Rlimit{Cur: 4 << 30, Max: 4 << 30}
 	if err := syscall.Setrlimit(syscall.RLIMIT_AS, &lim); err != nil {
 		fmt.Println("probe-failed:setrlimit")
 		return
